@@ -4,6 +4,7 @@ import (
 	"bytes"
 	"context"
 	"fmt"
+	"hash/fnv"
 	"sort"
 	"strings"
 
@@ -50,7 +51,7 @@ type replayState struct {
 	cobjs    map[int][]int       // spec commit id -> object ids in its snapshot
 	vacuumed map[int]bool        // spec object ids whose files were removed
 	prev     *Step
-	warm     *Lake // long-lived handle (Replayer.Warm)
+	warm     []*Lake // long-lived handles (Replayer.Warm)
 }
 
 func (r *replayState) clone() *replayState {
@@ -89,10 +90,15 @@ type Replayer struct {
 	// (warm journal/snapshot caches, as in the service), reads every branch
 	// through it after every step, and still judges every step with a fresh
 	// handle that sees persisted state only.
-	Warm   bool
-	Steps  int64
-	Drifts int64
-	cmp    expr.CompareFn
+	Warm bool
+	// WarmHandles is the number of long-lived handles in Warm mode (default 1).  With more
+	// than one, the handle that applies a step is chosen per (history, step) from Seed, and
+	// after every step the OTHER handles read first: their journal and snapshot caches were
+	// filled before the step and must not hide an acknowledged operation.
+	WarmHandles int
+	Steps       int64
+	Drifts      int64
+	cmp         expr.CompareFn
 }
 
 const PoolName = "p"
@@ -149,8 +155,16 @@ func (rp *Replayer) ReplayAll(hs []History) error {
 			if err != nil {
 				return err
 			}
-			if st.warm, err = Open(rp.Ctx, st.store, 0, nil); err != nil {
-				return err
+			n := rp.WarmHandles
+			if n < 1 {
+				n = 1
+			}
+			for k := 0; k < n; k++ {
+				lk, err := Open(rp.Ctx, st.store, 10+k, nil)
+				if err != nil {
+					return err
+				}
+				st.warm = append(st.warm, lk)
 			}
 			for i := range h {
 				ok, err := rp.apply(h[:i+1], st)
@@ -214,8 +228,14 @@ func msg() api.CommitMessage { return api.CommitMessage{Author: "verif"} }
 func (rp *Replayer) apply(h History, st *replayState) (bool, error) {
 	s := &h[len(h)-1]
 	rp.Steps++
-	lk := st.warm
-	if lk == nil {
+	var lk *Lake
+	actor := 0
+	if len(st.warm) > 0 {
+		hh := fnv.New32a()
+		hh.Write([]byte(histKey(h)))
+		actor = int((hh.Sum32() + uint32(rp.C.Seed)) % uint32(len(st.warm)))
+		lk = st.warm[actor]
+	} else {
 		var err error
 		if lk, err = Open(rp.Ctx, st.store, 0, nil); err != nil {
 			return false, err
@@ -300,14 +320,15 @@ func (rp *Replayer) apply(h History, st *replayState) (bool, error) {
 	okAll := true
 	// The long-lived handle is read first (before any other process persists snapshots of the new
 	// commits) and must show the model's contents.
-	if st.warm != nil {
+	for k := 1; k <= len(st.warm); k++ {
+		wi := (actor + k) % len(st.warm) // the other handles first, the acting handle last
 		for _, b := range sortedKeys(s.Tips) {
 			if !s.Readable[b] {
 				continue
 			}
-			rows, err := st.warm.Query(rp.Ctx, fmt.Sprintf("from %s@%s", PoolName, b))
+			rows, err := st.warm[wi].Query(rp.Ctx, fmt.Sprintf("from %s@%s", PoolName, b))
 			if err != nil {
-				rp.issue(h, KUnreadable, "branch %q cannot be read through the long-lived handle: %v", b, err)
+				rp.issue(h, KUnreadable, "branch %q cannot be read through long-lived handle %d (step applied by handle %d): %v", b, wi, actor, err)
 				okAll = false
 				continue
 			}
@@ -316,7 +337,7 @@ func (rp *Replayer) apply(h History, st *replayState) (bool, error) {
 			want := append([]int(nil), s.Data[b]...)
 			sort.Ints(want)
 			if !equalInts(gs, want) {
-				rp.issue(h, KContents, "branch %q read through the long-lived handle holds values %v but the model predicts %v", b, gs, want)
+				rp.issue(h, KContents, "branch %q read through long-lived handle %d (step applied by handle %d) holds values %v but the model predicts %v", b, wi, actor, gs, want)
 				okAll = false
 			}
 		}
